@@ -883,7 +883,7 @@ def C20(V, tier):
     from common import run_jobs, read_trace, split_trace_files, validate_parallel
     wd = workdir("C20")
     # M: sys/Crash.tla = Runtime + one injected panic anywhere + disconnect propagation
-    for tpl, cfg in ([("group", "group_quick")] if tier == "quick" else [("group", "group"), ("pipe", "pipe")]):
+    for tpl, cfg in ([("tiny", "tiny")] if tier == "quick" else [("group", "group"), ("pipe", "pipe")]):
         r = tlc_check(f"{SPEC}/mc/MC_CR_{tpl}.tla", f"{SPEC}/mc/MC_CR_{cfg}.cfg", wd, f"cr_{cfg}", workers=8, timeout=3000)
         if not r["ok"]:
             raise ToolError(f"Crash template {cfg}: {r['invariant_violated']} fails on the MODEL")
